@@ -365,9 +365,16 @@ fn do_conn(h: &Harness, c: &mut Case, tok: usize, with_inc: bool, t3: &mut Vec<(
         return "bad-op".into();
     }
     let id = c.next_conn;
-    let mut cl = match std::net::TcpStream::connect(h.addr) {
-        Ok(s) => s,
-        Err(e) => return format!("setup-error connect {e}"),
+    let mut tries = 0;
+    let mut cl = loop {
+        match std::net::TcpStream::connect(h.addr) {
+            Ok(s) => break s,
+            Err(e) if matches!(e.kind(), std::io::ErrorKind::AddrInUse | std::io::ErrorKind::AddrNotAvailable) && tries < 120 => {
+                tries += 1; // ephemeral ports exhausted by other processes: wait for some to come back
+                std::thread::sleep(Duration::from_millis(250));
+            }
+            Err(e) => return format!("setup-error connect {e}"),
+        }
     };
     let _ = cl.write_all(&id.to_be_bytes());
     let (srv, _) = match h.listener.accept() {
@@ -645,7 +652,19 @@ fn oracle_c06(c: &mut Case, evs: &[Evt], closed: &[u32], done: bool, raw_before:
 fn run(a: &Args) {
     silence_panics();
     let rt = tokio::runtime::Builder::new_current_thread().enable_all().start_paused(true).build().unwrap();
-    let listener = std::net::TcpListener::bind("127.0.0.1:0").expect("bind");
+    let listener = {
+        let mut tries = 0;
+        loop {
+            match std::net::TcpListener::bind("127.0.0.1:0") {
+                Ok(l) => break l,
+                Err(_) if tries < 240 => {
+                    tries += 1; // ephemeral ports exhausted by other processes
+                    std::thread::sleep(Duration::from_millis(250));
+                }
+                Err(e) => panic!("bind: {e}"),
+            }
+        }
+    };
     let addr = listener.local_addr().unwrap();
     let h = Harness { listener, addr, rt };
     let _g = h.rt.enter();
@@ -785,7 +804,10 @@ fn run(a: &Args) {
     if let Some(c) = case.take() {
         let _ = catch(std::panic::AssertUnwindSafe(move || drop(c)));
     }
-    for ((idx, _), (obs, fails)) in srv_jobs.iter().zip(&mut srv_results) {
+    for ((idx, _), (op2, obs, fails)) in srv_jobs.iter().zip(&mut srv_results) {
+        if !op2.is_empty() {
+            lines_out[*idx].0 = op2;
+        }
         lines_out[*idx].1 = Some(obs);
         for m in fails {
             t3_at.push((*idx, "C06".into(), m));
@@ -828,10 +850,6 @@ mod srvlevel {
     };
 
     use super::kv;
-
-    fn bucket(ms: u128) -> u128 {
-        (ms + 400) / 1000
-    }
 
     fn parse_holds(t: &str) -> Option<Vec<Option<u64>>> {
         if t == "-" {
@@ -883,183 +901,335 @@ mod srvlevel {
         Ok((srv, addr))
     }
 
-    fn run_srv(line: &str) -> (String, Vec<String>) {
-        let ws: Vec<&str> = line.split_whitespace().collect();
-        let workers = kv(&ws, "workers").and_then(super::num).unwrap_or(1);
-        let timeout = kv(&ws, "timeout").and_then(super::num).unwrap_or(1) as u64;
-        let graceful = match kv(&ws, "mode") {
+    /// one instance of a server-level scenario. Everything that is judged is judged one-sidedly, so that a
+    /// slow / loaded machine can only make a run *less* able to show a violation, never produce one:
+    /// * "early": the stop future resolved, or the server closed a held connection, *before* the property
+    ///   allows it (a time observed by the client is never earlier than the real one);
+    /// * "late": not resolved `bound + 5 s` after the stop.
+    struct Outcome {
+        setup: Option<String>,
+        stop: &'static str,   // resolved | dropped | never
+        server: &'static str, // resolved | never
+        second: &'static str, // resolved | never | -
+        early: Vec<String>,
+        late: bool,
+        served_after: bool,
+    }
+
+    fn is_port_error(e: &std::io::Error) -> bool {
+        matches!(e.kind(), std::io::ErrorKind::AddrInUse | std::io::ErrorKind::AddrNotAvailable)
+    }
+
+    struct Scn {
+        workers: usize,
+        timeout: u64,
+        graceful: bool,
+        holds: Vec<Option<u64>>,
+        second: Option<bool>,
+        dropfut: bool,
+        paused: bool,
+    }
+
+    fn parse_scn(ws: &[&str]) -> Option<Scn> {
+        let workers = kv(ws, "workers").and_then(super::num).unwrap_or(1);
+        let timeout = kv(ws, "timeout").and_then(super::num).unwrap_or(1) as u64;
+        let graceful = match kv(ws, "mode") {
             Some("g") => true,
             Some("f") => false,
-            _ => return ("bad-op".into(), vec![]),
+            _ => return None,
         };
-        let holds = match kv(&ws, "holds").and_then(parse_holds) {
-            Some(h) => h,
-            None => return ("bad-op".into(), vec![]),
-        };
-        let second = match kv(&ws, "second") {
+        let holds = kv(ws, "holds").and_then(parse_holds)?;
+        let second = match kv(ws, "second") {
             None => None,
             Some("g") => Some(true),
             Some("f") => Some(false),
-            _ => return ("bad-op".into(), vec![]),
+            _ => return None,
         };
-        let dropfut = kv(&ws, "drop") == Some("1");
-        let paused = kv(&ws, "paused") == Some("1");
-        if workers == 0 || workers > 4 || holds.len() > 6 {
-            return ("bad-op".into(), vec![]);
+        if workers == 0 || workers > 64 || holds.len() > 64 || timeout > 10 {
+            return None;
         }
-        let rt = tokio::runtime::Builder::new_current_thread().enable_all().build().unwrap();
-        let mut fails: Vec<String> = vec![];
-        let obs = rt.block_on(async {
-            let served = Arc::new(AtomicUsize::new(0));
-            let (srv, addr) = match server(workers, timeout, false, served.clone()) {
-                Ok(x) => x,
-                Err(e) => return format!("setup-error {e}"),
-            };
-            let handle = srv.handle();
-            let srv_task = tokio::spawn(srv);
-            // clients: connect one after the other (round-robin over the workers), prove each is being served
-            let mut clients = vec![];
-            for (i, _) in holds.iter().enumerate() {
-                let mut c = match tokio::net::TcpStream::connect(addr).await {
-                    Ok(c) => c,
-                    Err(e) => return format!("setup-error connect {e}"),
-                };
-                if !echo_ok(&mut c, i as u8 + 1).await {
-                    return "setup-error echo".into();
+        Some(Scn { workers, timeout, graceful, holds, second, dropfut: kv(ws, "drop") == Some("1"), paused: kv(ws, "paused") == Some("1") })
+    }
+
+    async fn scenario(sc: &Scn) -> Outcome {
+        use tokio::io::AsyncReadExt;
+        let mut out = Outcome { setup: None, stop: "never", server: "never", second: "-", early: vec![], late: false, served_after: false };
+        let served = Arc::new(AtomicUsize::new(0));
+        // ports may be scarce when many checks run at once: retry
+        let mut tries = 0;
+        let (srv, addr) = loop {
+            match server(sc.workers, sc.timeout, false, served.clone()) {
+                Ok(x) => break x,
+                Err(e) if is_port_error(&e) && tries < 40 => {
+                    tries += 1;
+                    tokio::time::sleep(Duration::from_millis(250)).await;
                 }
-                clients.push(c);
-            }
-            // let the accept thread finish `inc_counter` for the last dispatch (window W1 is C06's stated exception)
-            tokio::time::sleep(Duration::from_millis(50)).await;
-            if paused {
-                handle.pause().await;
-            }
-            let served_before = served.load(Ordering::SeqCst);
-            let t0 = Instant::now();
-            let stop_fut = handle.stop(graceful);
-            let stop_task = if dropfut {
-                drop(stop_fut);
-                None
-            } else {
-                Some(tokio::spawn(async move {
-                    stop_fut.await;
-                    t0.elapsed().as_millis()
-                }))
-            };
-            let second_task = second.map(|g2| {
-                let f = handle.stop(g2);
-                tokio::spawn(async move {
-                    f.await;
-                    t0.elapsed().as_millis()
-                })
-            });
-            // the clients: an echo 200 ms into the grace period, then hold until the release time
-            let mut client_tasks = vec![];
-            for (i, (mut c, rel)) in clients.into_iter().zip(holds.iter().cloned()).enumerate() {
-                client_tasks.push(tokio::spawn(async move {
-                    tokio::time::sleep_until((t0 + Duration::from_millis(200)).into()).await;
-                    let alive = echo_ok(&mut c, 100 + i as u8).await;
-                    match rel {
-                        Some(ms) => {
-                            tokio::time::sleep_until((t0 + Duration::from_millis(ms)).into()).await;
-                            drop(c);
-                        }
-                        None => {
-                            tokio::time::sleep_until((t0 + Duration::from_millis(timeout * 1000 + 3500)).into()).await;
-                            drop(c);
-                        }
-                    }
-                    alive
-                }));
-            }
-            let cap = Duration::from_millis(timeout * 1000 + 3000);
-            let t_server = match tokio::time::timeout(cap, srv_task).await {
-                Ok(_) => Some(t0.elapsed().as_millis()),
-                Err(_) => None,
-            };
-            let t_stop = match stop_task {
-                None => None,
-                Some(t) => match tokio::time::timeout(Duration::from_millis(1500), t).await {
-                    Ok(Ok(ms)) => Some(ms),
-                    _ => None,
-                },
-            };
-            let t_second = match second_task {
-                None => None,
-                Some(t) => match tokio::time::timeout(Duration::from_millis(1500), t).await {
-                    Ok(Ok(ms)) => Some(Some(ms)),
-                    _ => Some(None),
-                },
-            };
-            // nothing is served after completion
-            let after = match tokio::time::timeout(Duration::from_millis(300), tokio::net::TcpStream::connect(addr)).await {
-                Ok(Ok(mut c)) => {
-                    let ok = echo_ok(&mut c, 77).await;
-                    if ok { "served" } else { "unserved" }
-                }
-                _ => "refused",
-            };
-            tokio::time::sleep(Duration::from_millis(50)).await;
-            let served_after = served.load(Ordering::SeqCst);
-            let mut alive = vec![];
-            for t in client_tasks {
-                // the tasks of never-released clients are still sleeping: only look at those that are done or due
-                if t.is_finished() {
-                    alive.push(t.await.unwrap_or(false));
-                } else {
-                    t.abort();
-                    alive.push(true);
+                Err(e) => {
+                    out.setup = Some(if is_port_error(&e) { "ports".into() } else { format!("error {e}") });
+                    return out;
                 }
             }
-            // ---- T3: the statement of C06 on the measured behaviour
-            let t_ms = timeout as u128 * 1000;
-            match t_server {
-                None => fails.push(format!("the Server future did not resolve within {} ms of stop({graceful})", cap.as_millis())),
-                Some(ts) => {
-                    if !dropfut && t_stop.is_none() {
-                        fails.push(format!("the Server future resolved ({ts} ms) but the stop({graceful}) future did not"));
+        };
+        let handle = srv.handle();
+        let srv_task = tokio::spawn(srv);
+        // every client proves that its connection is being served (echo) before anything else happens
+        let mut clients = vec![];
+        for i in 0..sc.holds.len() {
+            let mut tries = 0;
+            let mut c = loop {
+                match tokio::net::TcpStream::connect(addr).await {
+                    Ok(c) => break c,
+                    Err(e) if is_port_error(&e) && tries < 40 => {
+                        tries += 1;
+                        tokio::time::sleep(Duration::from_millis(250)).await;
                     }
-                    if let Some(None) = t_second {
-                        fails.push("the future of the second stop() did not resolve".into());
-                    }
-                    let all_done: Option<u128> = holds.iter().map(|h| h.map(|x| x as u128)).try_fold(0u128, |m, h| h.map(|x| m.max(x)));
-                    let need = match all_done {
-                        Some(x) => x.min(t_ms),
-                        None => t_ms,
-                    };
-                    let done_at = t_stop.unwrap_or(ts);
-                    if graceful && second != Some(false) && !holds.is_empty() && done_at + 60 < need {
-                        fails.push(format!("graceful stop completed after {done_at} ms although connections were in progress until {} and shutdown_timeout is {t_ms} ms", all_done.map_or("never".to_string(), |x| format!("{x} ms"))));
-                    }
-                    if !graceful && done_at > 700 {
-                        fails.push(format!("forced stop took {done_at} ms to complete (it must not wait for connections)"));
-                    }
-                    let bound = ((t_ms + 999) / 1000 + 1) * 1000 + 800;
-                    if ts > bound {
-                        fails.push(format!("stop completed after {ts} ms, bound is {bound} ms"));
-                    }
-                    if graceful && second != Some(false) && alive.iter().any(|a| !*a) {
-                        fails.push("a connection in progress was no longer served 200 ms into a graceful shutdown".into());
+                    Err(e) => {
+                        out.setup = Some(if is_port_error(&e) { "ports".into() } else { format!("error connect {e}") });
+                        handle.stop(false).await;
+                        return out;
                     }
                 }
+            };
+            let _ = socket2::SockRef::from(&c).set_linger(Some(Duration::ZERO));
+            let mut ok = false;
+            for _ in 0..20 {
+                if echo_ok(&mut c, i as u8 + 1).await {
+                    ok = true;
+                    break;
+                }
             }
-            if after == "served" || served_after > served_before {
-                fails.push(format!("a connection was served after the shutdown completed ({} -> {})", served_before, served_after));
+            if !ok {
+                out.setup = Some("error echo".into());
+                handle.stop(false).await;
+                return out;
             }
-            let k = |t: Option<u128>| t.map_or("never".to_string(), |ms| bucket(ms).to_string());
-            format!(
-                "stop={} server={} second={} after={}",
-                if dropfut { "dropped".to_string() } else { k(t_stop) },
-                k(t_server),
-                match t_second {
-                    None => "-".to_string(),
-                    Some(x) => k(x),
-                },
-                if after == "served" { "served" } else { "none" }
-            )
+            clients.push(c);
+        }
+        // the accept thread counts a dispatched connection right after sending it (window W1 is C06's stated
+        // exception): give it time to do so
+        tokio::time::sleep(Duration::from_millis(std::env::var("VH_SETTLE").ok().and_then(|v| v.parse().ok()).unwrap_or(100))).await;
+        if sc.paused {
+            handle.pause().await;
+        }
+        let served_before = served.load(Ordering::SeqCst);
+        let t0 = Instant::now();
+        let stop_fut = handle.stop(sc.graceful);
+        let stop_task = if sc.dropfut {
+            drop(stop_fut);
+            None
+        } else {
+            Some(tokio::spawn(async move {
+                stop_fut.await;
+                t0.elapsed().as_millis()
+            }))
+        };
+        let second_task = sc.second.map(|g2| {
+            let f = handle.stop(g2);
+            tokio::spawn(async move {
+                f.await;
+                t0.elapsed().as_millis()
+            })
         });
-        rt.shutdown_timeout(Duration::from_millis(200));
-        (obs, fails)
+        // each client watches its connection until its release time: Some(ms) = the *server* closed it at ms
+        let finish = Arc::new(tokio::sync::Notify::new());
+        let mut client_tasks = vec![];
+        for (mut c, rel) in clients.into_iter().zip(sc.holds.iter().cloned()) {
+            let finish = finish.clone();
+            client_tasks.push(tokio::spawn(async move {
+                let release = async {
+                    match rel {
+                        Some(ms) => tokio::time::sleep_until((t0 + Duration::from_millis(ms)).into()).await,
+                        None => finish.notified().await,
+                    }
+                };
+                tokio::pin!(release);
+                let mut buf = [0u8; 16];
+                loop {
+                    tokio::select! {
+                        _ = &mut release => return None,
+                        r = c.read(&mut buf) => match r {
+                            Ok(0) | Err(_) => return Some(t0.elapsed().as_millis()),
+                            Ok(_) => {}
+                        }
+                    }
+                }
+            }));
+        }
+        let t_ms = sc.timeout as u128 * 1000;
+        let bound = ((t_ms + 999) / 1000 + 1) * 1000;
+        let cap = Duration::from_millis((bound + 5500) as u64);
+        let t_server = match tokio::time::timeout(cap, srv_task).await {
+            Ok(_) => Some(t0.elapsed().as_millis()),
+            Err(_) => None,
+        };
+        let t_stop = match stop_task {
+            None => None,
+            Some(t) => match tokio::time::timeout(Duration::from_millis(3000), t).await {
+                Ok(Ok(ms)) => Some(ms),
+                _ => None,
+            },
+        };
+        let t_second = match second_task {
+            None => None,
+            Some(t) => match tokio::time::timeout(Duration::from_millis(3000), t).await {
+                Ok(Ok(ms)) => Some(Some(ms)),
+                _ => Some(None),
+            },
+        };
+        out.server = if t_server.is_some() { "resolved" } else { "never" };
+        out.stop = if sc.dropfut { "dropped" } else if t_stop.is_some() { "resolved" } else { "never" };
+        out.second = match t_second {
+            None => "-",
+            Some(Some(_)) => "resolved",
+            Some(None) => "never",
+        };
+        // nothing is served after completion
+        if t_server.is_some() {
+            if let Ok(Ok(mut c)) = tokio::time::timeout(Duration::from_millis(500), tokio::net::TcpStream::connect(addr)).await {
+                let _ = socket2::SockRef::from(&c).set_linger(Some(Duration::ZERO));
+                if echo_ok(&mut c, 77).await {
+                    out.served_after = true;
+                }
+            }
+            tokio::time::sleep(Duration::from_millis(50)).await;
+            if served.load(Ordering::SeqCst) > served_before {
+                out.served_after = true;
+            }
+        }
+        finish.notify_waiters();
+        let mut closed_at = vec![];
+        for t in client_tasks {
+            closed_at.push(match tokio::time::timeout(Duration::from_millis(200), t).await {
+                Ok(Ok(x)) => x,
+                _ => None,
+            });
+        }
+        // ---- one-sided judgements
+        let all_done: Option<u128> = sc.holds.iter().map(|h| h.map(|x| x as u128)).try_fold(0u128, |m, h| h.map(|x| m.max(x)));
+        let need = match all_done {
+            Some(x) => x.min(t_ms),
+            None => t_ms,
+        };
+        if sc.graceful && !sc.holds.is_empty() {
+            if let Some(done_at) = t_stop.or(t_server) {
+                if done_at + 60 < need {
+                    out.early.push(format!(
+                        "graceful stop completed after {done_at} ms although connections were in progress until {} and shutdown_timeout is {t_ms} ms",
+                        all_done.map_or("never".to_string(), |x| format!("{x} ms"))
+                    ));
+                }
+            }
+            for (i, cl) in closed_at.iter().enumerate() {
+                if let Some(ms) = cl {
+                    if ms + 60 < t_ms {
+                        out.early.push(format!("connection {i}, still held by its client, was closed by the server {ms} ms into a graceful shutdown (shutdown_timeout {t_ms} ms)"));
+                    }
+                }
+            }
+        }
+        if !sc.graceful {
+            // "does not wait": with a never-ending connection and a long timeout, completion well before the timeout
+            if let Some(done_at) = t_stop.or(t_server) {
+                if t_ms >= 5000 && all_done.is_none() && done_at > 3000 {
+                    out.early.push(format!("forced stop took {done_at} ms to complete (it must not wait for connections; shutdown_timeout {t_ms} ms)"));
+                }
+            }
+        }
+        out.late = t_server.is_none();
+        out
+    }
+
+    fn show(o: &Outcome, fails: &mut Vec<String>) -> String {
+        if let Some(s) = &o.setup {
+            return format!("setup-{s}");
+        }
+        if o.server == "never" {
+            fails.push("the Server future did not resolve within its bound + 5 s".into());
+        }
+        if o.stop == "never" {
+            fails.push("the stop() future did not resolve".into());
+        }
+        if o.second == "never" {
+            fails.push("the future of the second stop() did not resolve".into());
+        }
+        fails.extend(o.early.iter().cloned());
+        if o.served_after {
+            fails.push("a connection was served after the shutdown completed".into());
+        }
+        format!(
+            "stop={} server={} second={} early={} late={} after={}",
+            o.stop,
+            o.server,
+            o.second,
+            (!o.early.is_empty()) as u8,
+            o.late as u8,
+            if o.served_after { "served" } else { "none" }
+        )
+    }
+
+    /// (rewritten op, observation, oracle failures)
+    fn run_srv(line: &str) -> (String, String, Vec<String>) {
+        let ws: Vec<&str> = line.split_whitespace().collect();
+        let sc = match parse_scn(&ws) {
+            Some(s) => s,
+            None => return (line.to_string(), "bad-op".into(), vec![]),
+        };
+        let reps = kv(&ws, "reps").and_then(super::num).unwrap_or(1).clamp(1, 64);
+        let burn = kv(&ws, "burn").and_then(super::num).unwrap_or(0).min(32);
+        // optional CPU pressure (replay of the accept-exit / Stop-delivery race needs a preempted server thread)
+        let stop_burn = Arc::new(std::sync::atomic::AtomicBool::new(false));
+        let burners: Vec<_> = (0..burn)
+            .map(|_| {
+                let s = stop_burn.clone();
+                std::thread::spawn(move || {
+                    let mut x = 0u64;
+                    while !s.load(Ordering::Relaxed) {
+                        x = x.wrapping_mul(6364136223846793005).wrapping_add(1);
+                        std::hint::black_box(x);
+                    }
+                })
+            })
+            .collect();
+        let sc = Arc::new(sc);
+        let handles: Vec<_> = (0..reps)
+            .map(|_| {
+                let sc = sc.clone();
+                std::thread::spawn(move || {
+                    let rt = tokio::runtime::Builder::new_current_thread().enable_all().build().unwrap();
+                    let o = rt.block_on(scenario(&sc));
+                    rt.shutdown_timeout(Duration::from_millis(200));
+                    o
+                })
+            })
+            .collect();
+        let outs: Vec<Outcome> = handles.into_iter().filter_map(|h| h.join().ok()).collect();
+        stop_burn.store(true, Ordering::Relaxed);
+        for b in burners {
+            let _ = b.join();
+        }
+        let mut fails = vec![];
+        if outs.iter().any(|o| matches!(o.setup.as_deref(), Some("ports"))) {
+            // no ephemeral ports: nothing was observed; both sides skip the line
+            return (format!("{line} skip=ports"), "skipped".into(), vec![]);
+        }
+        // several repetitions: the worst outcome is reported
+        let mut worst: Option<&Outcome> = None;
+        for o in &outs {
+            let bad = o.setup.is_some() || !o.early.is_empty() || o.late || o.served_after || o.stop == "never" || o.server == "never" || o.second == "never";
+            if bad || worst.is_none() {
+                worst = Some(o);
+                if bad {
+                    break;
+                }
+            }
+        }
+        match worst {
+            Some(o) => {
+                let obs = show(o, &mut fails);
+                (line.to_string(), obs, fails)
+            }
+            None => (line.to_string(), "panic".into(), vec!["the server-level scenario panicked".into()]),
+        }
     }
 
     /// child process: a server with OS signals enabled; prints its port, exits when the server future resolves
@@ -1075,22 +1245,22 @@ mod srvlevel {
         std::process::exit(0);
     }
 
-    fn run_sig(line: &str) -> (String, Vec<String>) {
+    fn run_sig(line: &str) -> (String, String, Vec<String>) {
         let ws: Vec<&str> = line.split_whitespace().collect();
         let (signame, graceful) = match kv(&ws, "sig") {
             Some("int") => ("INT", false),
             Some("term") => ("TERM", true),
             Some("quit") => ("QUIT", false),
-            _ => return ("bad-op".into(), vec![]),
+            _ => return (line.to_string(), "bad-op".into(), vec![]),
         };
         let timeout = kv(&ws, "timeout").and_then(super::num).unwrap_or(1) as u64;
         let hold = match kv(&ws, "hold").and_then(parse_holds) {
             Some(h) if h.len() == 1 => h[0],
-            _ => return ("bad-op".into(), vec![]),
+            _ => return (line.to_string(), "bad-op".into(), vec![]),
         };
         let exe = match std::env::current_exe() {
             Ok(e) => e,
-            Err(e) => return (format!("setup-error {e}"), vec![]),
+            Err(e) => return (line.to_string(), format!("setup-error {e}"), vec![]),
         };
         let mut child = match std::process::Command::new(exe)
             .args(["sigchild", &timeout.to_string()])
@@ -1099,7 +1269,7 @@ mod srvlevel {
             .spawn()
         {
             Ok(c) => c,
-            Err(e) => return (format!("setup-error spawn {e}"), vec![]),
+            Err(e) => return (line.to_string(), format!("setup-error spawn {e}"), vec![]),
         };
         let mut port = String::new();
         {
@@ -1116,14 +1286,15 @@ mod srvlevel {
             Ok(p) => p,
             Err(_) => {
                 let _ = child.kill();
-                return ("setup-error port".into(), vec![]);
+                return (format!("{line} skip=ports"), "skipped".into(), vec![]);
             }
         };
         let mut c = match std::net::TcpStream::connect(("127.0.0.1", port)) {
             Ok(c) => c,
             Err(e) => {
                 let _ = child.kill();
-                return (format!("setup-error connect {e}"), vec![]);
+                let _ = e;
+                return (format!("{line} skip=ports"), "skipped".into(), vec![]);
             }
         };
         let _ = c.write_all(&[9]);
@@ -1131,12 +1302,12 @@ mod srvlevel {
         let _ = c.set_read_timeout(Some(Duration::from_millis(1000)));
         if c.read_exact(&mut b).is_err() {
             let _ = child.kill();
-            return ("setup-error echo".into(), vec![]);
+            return (line.to_string(), "setup-error echo".into(), vec![]);
         }
         std::thread::sleep(Duration::from_millis(100)); // let the signal handlers be installed
         let t0 = Instant::now();
         let _ = std::process::Command::new("kill").args([&format!("-{signame}"), &child.id().to_string()]).status();
-        let cap = Duration::from_millis(timeout * 1000 + 3500);
+        let cap = Duration::from_millis(timeout * 1000 + 7000);
         let mut released = false;
         let mut exit_ms = None;
         let mut c = Some(c);
@@ -1155,6 +1326,7 @@ mod srvlevel {
         }
         drop(c);
         let mut fails = vec![];
+        let mut early = false;
         match exit_ms {
             None => {
                 let _ = child.kill();
@@ -1165,18 +1337,20 @@ mod srvlevel {
                 let t_ms = timeout as u128 * 1000;
                 let need = hold.map_or(t_ms, |h| (h as u128).min(t_ms));
                 if graceful && ms + 60 < need {
+                    early = true;
                     fails.push(format!("SIGTERM: the process exited after {ms} ms with a connection in progress until {:?}, shutdown_timeout {t_ms} ms", hold));
                 }
-                if !graceful && ms > 1000 {
-                    fails.push(format!("SIG{signame}: forced shutdown took {ms} ms"));
+                if !graceful && t_ms >= 5000 && hold.is_none() && ms > 3000 {
+                    early = true;
+                    fails.push(format!("SIG{signame}: forced shutdown took {ms} ms (shutdown_timeout {t_ms} ms)"));
                 }
             }
         }
-        (format!("exit={}", exit_ms.map_or("never".to_string(), |ms| ((ms + 100) / 1000).to_string())), fails)
+        (line.to_string(), format!("exit={} early={}", if exit_ms.is_some() { "ok" } else { "never" }, early as u8), fails)
     }
 
     /// run every `srv …` / `sig …` line concurrently; result per line: (observation, oracle failures)
-    pub fn run_jobs(lines: &[String]) -> Vec<(String, Vec<String>)> {
+    pub fn run_jobs(lines: &[String]) -> Vec<(String, String, Vec<String>)> {
         let mut out = vec![];
         for batch in lines.chunks(12) {
             let handles: Vec<_> = batch
@@ -1184,12 +1358,13 @@ mod srvlevel {
                 .cloned()
                 .map(|l| {
                     std::thread::spawn(move || {
-                        let r = std::panic::catch_unwind(|| if l.split_whitespace().next() == Some("sig") { run_sig(&l) } else { run_srv(&l) });
-                        r.unwrap_or_else(|_| ("panic".to_string(), vec!["the server-level scenario panicked".to_string()]))
+                        let l2 = l.clone();
+                        let r = std::panic::catch_unwind(move || if l.split_whitespace().next() == Some("sig") { run_sig(&l) } else { run_srv(&l) });
+                        r.unwrap_or_else(|_| (l2, "panic".to_string(), vec!["the server-level scenario panicked".to_string()]))
                     })
                 })
                 .collect();
-            out.extend(handles.into_iter().map(|h| h.join().unwrap_or_else(|_| ("panic".to_string(), vec![]))));
+            out.extend(handles.into_iter().map(|h| h.join().unwrap_or_else(|_| (String::new(), "panic".to_string(), vec![]))));
         }
         out
     }
@@ -1549,22 +1724,27 @@ mod gen {
                 writeln!(w, "srv s{k} {rest}").unwrap();
                 k += 1;
             };
+            // F7: graceful stop vs. accept-thread exit (needs a preempted server thread: repeated under CPU pressure)
+            srv(&mut *w, "workers=2 timeout=2 mode=g holds=n,n reps=48 burn=12");
             srv(&mut *w, "workers=1 timeout=1 mode=g holds=-");
             srv(&mut *w, "workers=1 timeout=2 mode=g holds=300");
             srv(&mut *w, "workers=1 timeout=1 mode=g holds=n");
-            srv(&mut *w, "workers=1 timeout=2 mode=f holds=n");
+            srv(&mut *w, "workers=1 timeout=5 mode=f holds=n");
             srv(&mut *w, "workers=1 timeout=2 mode=g holds=300 second=g");
             srv(&mut *w, "workers=1 timeout=2 mode=g holds=300 drop=1");
             srv(&mut *w, "workers=1 timeout=2 mode=g holds=300 paused=1");
             srv(&mut *w, "workers=2 timeout=3 mode=g holds=300,1300");
-            srv(&mut *w, "workers=2 timeout=1 mode=f holds=n,300 second=f");
+            srv(&mut *w, "workers=2 timeout=5 mode=f holds=n,300 second=f");
             srv(&mut *w, "workers=1 timeout=0 mode=g holds=n");
             srv(&mut *w, "workers=2 timeout=2 mode=g holds=n,300,1300");
-            srv(&mut *w, "workers=1 timeout=2 mode=f holds=- drop=1");
+            srv(&mut *w, "workers=1 timeout=5 mode=f holds=n drop=1");
             if thorough {
                 for workers in [1usize, 2] {
-                    for timeout in [0usize, 1, 2] {
+                    for timeout in [0usize, 1, 2, 5] {
                         for mode in ["g", "f"] {
+                            if (timeout == 5) != (mode == "f") && timeout >= 2 {
+                                continue;
+                            }
                             for holds in ["-", "300", "n", "1300", "300,n", "1300,300", "300,300,n"] {
                                 for extra in ["", "second=g", "second=f", "drop=1", "paused=1", "paused=1 second=f drop=1"] {
                                     srv(&mut *w, &format!("workers={workers} timeout={timeout} mode={mode} holds={holds} {extra}"));
@@ -1575,7 +1755,7 @@ mod gen {
                 }
                 let mut j = 0;
                 for sig in ["int", "term", "quit"] {
-                    for (timeout, hold) in [(1, "n"), (2, "300"), (2, "n")] {
+                    for (timeout, hold) in [(1, "n"), (2, "300"), (5, "n")] {
                         writeln!(w, "sig g{j} sig={sig} timeout={timeout} hold={hold}").unwrap();
                         j += 1;
                     }
